@@ -17,7 +17,36 @@ type Locker interface {
 }
 
 // Pool and Map are not synchronisation the explorer needs to own.
-type Pool = sync.Pool
+// Pool is a deterministic stand-in for sync.Pool (the real one depends on which P a goroutine
+// runs on and on garbage collections, neither of which the scheduler owns): a LIFO free list
+// whose Get and Put are scheduling points.
+type Pool struct {
+	New   func() any
+	items []any
+}
+
+// Get returns the most recently Put item, or New().
+func (p *Pool) Get() any {
+	sched.Point("Pool.Get", nil)
+	if n := len(p.items); n > 0 {
+		x := p.items[n-1]
+		p.items = p.items[:n-1]
+		return x
+	}
+	if p.New != nil {
+		return p.New()
+	}
+	return nil
+}
+
+// Put returns an item to the free list.
+func (p *Pool) Put(x any) {
+	sched.Point("Pool.Put", nil)
+	if x != nil {
+		p.items = append(p.items, x)
+	}
+}
+
 type Map = sync.Map
 
 // hb op codes
